@@ -266,5 +266,6 @@ func c08(args []string) int {
 	for _, cd := range codecDefs() {
 		c08Codec(run, cd)
 	}
+	c08Contain(run)
 	return run.Finish()
 }
